@@ -19,7 +19,12 @@ def _main(args, more):
     if isinstance(r, int):
         return r
     from vlib import pool, core
-    pool.run_targets(r, "contracts.gate", ["_cpp_integer_type_for_enum"])
+    pool.run_targets(r, "contracts.gate", ["_cpp_integer_type_for_enum", "_generate_enum_definition"])
+    from contracts import attrs
+    pool.run_targets(r, "contracts.attrs", ["enum_attributes", "enum_width"])
+    r.function("compiler.back_end.cpp.header_generator._generate_enum_definition",
+               "pyvc: for every enum of <= 3 values (symbolic numeric values: every pattern of duplicates), 1-2 spellings per value: enumerators, from-name cases for every declared name, name/known cases for first declarations only, underlying type")
+    r.function("compiler.front_end.attribute_checker._add_missing_width_and_sign_attributes_on_enum / _verify_width_attribute_on_enum", "pyvc: maximum_bits default 64, is_signed default = some value negative, error iff outside 1..64")
     r.function("compiler.back_end.cpp.header_generator._cpp_integer_type_for_enum", "pyvc: smallest fixed-width type of the declared signedness, total on 1..64")
     r.assume(*core.STANDING_ASSUMPTIONS["E1"])
     r.function("generated TryToGetEnumFromName / TryToGetNameFromEnum / EnumIsKnown / enumerators / underlying type of the corpus enums (corpus/enums.emb)",
